@@ -14,6 +14,7 @@ violation carries everything needed to replay it.
 from __future__ import annotations
 
 import hashlib
+import os
 import json
 import traceback
 from collections import Counter, defaultdict
@@ -78,7 +79,8 @@ class Recorder:
         self.violation_count += 1
         if len(self.violations) < self.MAX_VIOLATIONS:
             self.violations.append({"monitor": monitor, "detail": jsonable(detail), "mechanism": mechanism,
-                                    "case": jsonable(case if case is not None else self.case)})
+                                    "case": jsonable(case if case is not None else self.case),
+                                    "process_state": os.environ.get("VERIF_PROCESS_STATE", "default")})
 
     def ambiguous(self, monitor, why=""):
         self.monitors[monitor]["ambiguous"] += 1
